@@ -406,9 +406,12 @@ func runSim(s *spec, tier string, seed uint64, scratch string) int {
 			}
 		}
 	}
-	if infra {
+	if infra && len(agg.Violations) == 0 {
 		fmt.Fprintf(os.Stderr, "check: %s %s: infrastructure failure, no verdict\n", s.Prop, tier)
 		return 2
+	}
+	if infra {
+		fmt.Fprintf(os.Stderr, "check: %s %s: some workers ended abnormally (see above) but others found violations, which are reported\n", s.Prop, tier)
 	}
 	if agg.Runs == 0 {
 		die(2, "no runs executed")
